@@ -198,12 +198,17 @@ def _gen_tree(rng, family, max_junctions, sorted_labels, thermal, kinds, big_lab
         meta["branches"].append(("pipe", idx))
     # junction-pipe valve
     if "valve_pi" in kinds and pipes:
-        pidx, a, b = rng.choice(pipes)
-        idx = cnt.new("valve")
-        ops.append({"fn": "create_valve", "kw": {
-            "junction": rng.choice([a, b]), "element": pidx, "et": "pi",
-            "inner_diameter_mm": 100.0, "opened": True, "index": idx}})
-        meta["toggles"].append(("valve", idx, "opened"))
+        # one to four valves at pipe ends (distinct junction-pipe pairs, not at both ends of the same pipe)
+        chosen = rng.sample(pipes, min(len(pipes), rng.choice([1, 1, 2, 3, 4])))
+        for (pidx, a, b) in chosen:
+            if a == b:
+                continue
+            idx = cnt.new("valve")
+            ops.append({"fn": "create_valve", "kw": {
+                "junction": rng.choice([a, b]), "element": pidx, "et": "pi",
+                "inner_diameter_mm": rng.choice([80.0, 100.0]), "opened": True, "loss_coefficient": rng.choice([0.0, 0.5]),
+                "index": idx}})
+            meta["toggles"].append(("valve", idx, "opened"))
     # loads
     nl = rng.randint(1, max(1, min(4, n - 1)))
     load_js = [jl[rng.randrange(1, n)] for _ in range(nl)]
